@@ -39,5 +39,12 @@ Theorem C16_to_function_default_interpolates :
 Proof. exact to_function_default_interpolates. Qed.
 Print Assumptions C16_to_function_default_interpolates.
 
+(** ======== generated arithmetic = model (Gen/Kernels.v is regenerated from the source on every check) ======== *)
+From TW Require Import Model.MatchSpec Model.Process Gen.Kernels Proofs.KernelsLink.
+Theorem C16_generated_default_s : forall psqrt y, (forall v, psqrt v * psqrt v = v) ->
+  spline_smooth__s psqrt (VV y) = VS (smoothing_s y None).
+Proof. exact gen_spline_s. Qed.
+Print Assumptions C16_generated_default_s.
+
 Example C16_example : Qc_eqb (smoothing_s [qz 1; qz 3] None) (qz 2) = true.
 Proof. vm_compute. reflexivity. Qed.
